@@ -34,7 +34,10 @@ OdmlAll == 1..10
 
 VARIABLES props, subs, act, hist
 vars == << props, subs, act, hist >>
-View == << props, subs >>
+State == << props, subs >>
+\* the view keeps one history per state AND per "the last call was refused": every call is also explored right after a
+\* refused one (a refusal stutters, but what it leaves behind in the implementation's session would show next)
+View == << State, act.out # "ok" >>
 
 TypeOfList(c) == IF c = << >> THEN "none"
                  ELSE IF \A i \in 1..Len(c) : c[i][1] = c[1][1] THEN c[1][1] ELSE "mixed"
@@ -179,7 +182,7 @@ DictConsistent == \A k \in Names :
 
 IsAct(n) == act'.name = n
 Refused == act'.out # "ok"
-RefusedUnchanged == [][Refused => View' = View]_vars
+RefusedUnchanged == [][Refused => State' = State]_vars
 
 \* the data type of a property never changes while it exists under that name at the same position
 DtypeFixed == [][\A i \in 1..Len(props) : \A j \in 1..Len(props') :
